@@ -24,6 +24,7 @@ func init() {
 
 // loadReal loads the sources with the real loader (prelude prepended by the library).
 func loadReal(sources []*ast.Source) (l ALoaded, schema *ast.Schema, crash string) {
+	defer guard("gqlparser.LoadSchema", describeSources(sources))()
 	defer func() {
 		if r := recover(); r != nil {
 			crash = fmt.Sprintf("panic: %v", r)
